@@ -200,7 +200,7 @@ Record money := mkM {
   g_pv : kmap;      (* ghost: paid to validators out of the consumer's credits (Dec) *)
   g_pc : kmap;      (* ghost: paid to the community pool (Dec) *)
   g_dust : kmap;    (* ghost: moved to the distribution account but recorded nowhere (Dec) *)
-  g_forf : kmap;    (* ghost: credit dropped although nothing was paid (Dec) *)
+  g_forf : kmap;    (* ghost: credit dropped although nothing was paid (Dec); always 0 since fix 2504227 *)
   g_mint : kmap;    (* ghost (0, denom): coins that entered the provider accounts *)
   log : list event  (* ghost: every AllocateTokensToValidator call that was committed *)
 }.
@@ -293,8 +293,8 @@ Definition alloc_body (env : benv) (f : conf) (c d : Z) (m : money) : option mon
     let thr := epochs f * bpe f in
     let total := total_power thr (b_h env) vs in
     if total =? 0 then
-      (* zero-power branch: the truncated credit goes to the community pool; an error of
-         FundCommunityPool is only logged, the credit is reduced regardless *)
+      (* zero-power branch: the truncated credit goes to the community pool; since 2504227 an error of
+         FundCommunityPool is returned (the cached context is dropped, the credit stays) *)
       let toSend := dtrunc_int A in
       let change := A - dec_of_int toSend in
       if negb (negb (toSend =? 0) && memz d (b_fail_fund env)) && (toSend <=? get (POOL, d) (bank m)) then
@@ -302,10 +302,7 @@ Definition alloc_body (env : benv) (f : conf) (c d : Z) (m : money) : option mon
                   (outst m) (comm m) (add (c, d) (change - A) (alloc m))
                   (g_cred m) (g_pv m) (add (c, d) (dec_of_int toSend) (g_pc m)) (g_dust m) (g_forf m)
                   (g_mint m) (log m))
-      else
-        Some (mkM (bank m) (cpool m) (outst m) (comm m) (add (c, d) (change - A) (alloc m))
-                  (g_cred m) (g_pv m) (g_pc m) (g_dust m) (add (c, d) (dec_of_int toSend) (g_forf m))
-                  (g_mint m) (log m))
+      else None
     else if b_fail_tax env then None
     else
       let vr := dmul_trunc A (dsub (dec_of_int 1) (b_tax env)) in        (* validatorsRewards *)
@@ -329,6 +326,20 @@ Definition alloc_body (env : benv) (f : conf) (c d : Z) (m : money) : option mon
                       (add (c, d) (dec_of_int vrT - sum_amt evs) (g_dust m)) (g_forf m)
                       (g_mint m) (log m ++ evs))
         end.
+
+(* PRE-FIX behaviour (before /repo commit 2504227), kept for the record only; NOT used by [run]/[step]:
+   in the zero-power branch a failing FundCommunityPool was only logged and the credit was reduced to its
+   decimal remainder although nothing was paid (g_forf records the forfeited amount). *)
+Definition alloc_body_prefix (env : benv) (f : conf) (c d : Z) (m : money) : option money :=
+  let A := get (c, d) (alloc m) in
+  let total := total_power (epochs f * bpe f) (b_h env) (lookup_list c (valsets f)) in
+  let toSend := dtrunc_int A in
+  if negb (A =? 0) && has_chain c f && (total =? 0) &&
+     negb (negb (negb (toSend =? 0) && memz d (b_fail_fund env)) && (toSend <=? get (POOL, d) (bank m)))
+  then Some (mkM (bank m) (cpool m) (outst m) (comm m) (add (c, d) (A - dec_of_int toSend - A) (alloc m))
+                 (g_cred m) (g_pv m) (g_pc m) (g_dust m) (add (c, d) (dec_of_int toSend) (g_forf m))
+                 (g_mint m) (log m))
+  else alloc_body env f c d m.
 
 Definition alloc_one (env : benv) (f : conf) (c : Z) (m : money) (d : Z) : money :=
   match alloc_body env f c d m with Some m' => m' | None => m end.
@@ -686,6 +697,24 @@ Definition mon_begin (D NV : Z) (env : benv) (f : conf) (p q : tree) : list Z :=
     chk ((0 <=? paid_v) && (0 <=? paid_c) && (paid_v + paid_c <=? consumed)) 4 ++
     chk (dec_of_int (sp_bank q DISTR d - sp_bank p DISTR d) <=? consumed) 5 ++
     chk (sp_bank p POOL d - sp_bank q POOL d =? sp_bank q DISTR d - sp_bank p DISTR d) 6 ++
+    (* what the credits lost and nobody received: must stay within the proved dust bound T*(n-1) per allocation
+       (clause 18); being positive at all is the known finding C16-allocation-dust (clause 19) *)
+    let unrec := consumed - (paid_v + paid_c) in
+    let consuming := filter (fun i =>
+                      let ci := Z.to_nat (index_of (ci_id i) f) in
+                      nthz (nth ci (sp_alloc q) []) d <? nthz (nth ci (sp_alloc p) []) d) (cons f) in
+    let n_of i := Z.of_nat (length (filter (eligible (epochs f * bpe f) (b_h env)) (lookup_list (ci_id i) (valsets f)))) in
+    let once := forallb (fun i =>
+                  Z.of_nat (count_occ Z.eq_dec (registered f ++ lookup_list (ci_id i) (allowl f)) d) =? 1) consuming in
+    let bound :=
+      if once then
+        sumz (map (fun i =>
+                let A := nthz (nth (Z.to_nat (index_of (ci_id i) f)) (sp_alloc p) []) d in
+                let vrT := dtrunc_int (dmul_trunc A (dsub (dec_of_int 1) (b_tax env))) in
+                vrT * Z.max 0 (n_of i - 1)) consuming)
+      else (sp_bank q DISTR d - sp_bank p DISTR d) * Z.max 0 (fold_right Z.max 0 (map n_of consuming) - 1) in
+    chk (unrec <=? bound) 18 ++
+    chk (unrec <=? 0) 19 ++
     (* credits only shrink in BeginBlock, and only for consumers with a client and a registered/allowlisted denom *)
     chk (forallb (fun i =>
            let ci := Z.to_nat (index_of (ci_id i) f) in
